@@ -35,9 +35,9 @@ THEOREMS = {
             "Layout.writer_reader_agree", "Layout.blocks_inside", "Layout.blocks_disjoint", "Layout.blocks_cover", "Layout.blocks_partition"],
     "C20": ["psi_above_one_rejected", "schedule_outside_horizon_rejected", "excess_capital_rejected", "negative_capacity_rejected",
             "params_ok", "init_econ_ok", "tracker_init_ok", "inv_step", "step_quantities_nonneg", "no_silent_failure", "inv_reach"],
-    "C02": ["specDemand_eq", "step_refines_spec", "nextStep_econ"],
+    "C02": ["specDemand_eq", "step_refines_spec", "nextStep_econ", "Records.phase_order"],
     "C19": ["lifecycle_shift", "recoverOne_shift", "eventsPost_shift", "eventsPre_shift", "shift_step", "overprod_identity_at_rest",
-            "shift_step_early", "shift_run_partial"],
+            "shift_step_early", "shift_run_partial", "equilibrium_step_exact", "shift_invariance"],
     "C12": ["Impact.distribute_sum", "Impact.distribute_pos", "Impact.distribute_equal", "Impact.distribute_proportional", "Impact.distribute_support",
             "Impact.reject_nonpositive_impact", "Impact.reject_empty_selection", "Impact.reject_missing_weight", "Impact.reject_negative_entry",
             "Impact.reject_negative_weight", "Impact.regions_sectors_sum", "Impact.regions_sectors_product"],
@@ -48,19 +48,22 @@ THEOREMS = {
             "Records.helpers_write_own_row", "Records.specs_bijective", "Records.writes_after_their_phase"],
     "C17": ["Storage.run_function", "Storage.isolation", "Storage.fresh_defaults_distinct", "Storage.shared_default_breaks_isolation",
             "Storage.ingest_preserves", "Storage.event_reusable", "Storage.defaults_safe"],
-    "C14": ["alpha_bounds", "alpha_increase_only_if_scarce", "alpha_increase_amount", "alpha_no_increase_when_met",
+    "C14": ["Records.phase_order", "alpha_bounds", "alpha_increase_only_if_scarce", "alpha_increase_amount", "alpha_no_increase_when_met",
             "alpha_drift_to_base"],
 }
 
 # Lean modules holding them
 MODULES = {pid: [f"Boario.Properties.{pid}"] for pid in THEOREMS}
+MODULES["C19"] = ["Boario.Properties.C19", "Boario.Properties.C19Run"]
+MODULES["C02"] = ["Boario.Properties.C02", "Boario.Properties.PhaseOrder"]
+MODULES["C14"] = ["Boario.Properties.C14", "Boario.Properties.PhaseOrder"]
 MODULES["C11"] = ["Boario.Properties.C11", "Boario.Properties.LayoutThm"]
 MODULES["C04"] = ["Boario.Properties.C04", "Boario.Properties.LayoutThm"]
 
 # scenario streams: (stream name, number of scenarios quick, thorough)
 STREAMS = {
     "C02": [("shocked", 14, 200), ("shortage", 10, 150), ("multi", 8, 100), ("mild", 6, 80), ("crash", 4, 60)],
-    "C19": [("early", 16, 160), ("multi", 8, 80)],
+    "C19": [("early", 16, 160), ("multi", 8, 80), ("negfd", 6, 40)],
     "C09": [("recover", 36, 400), ("multi", 8, 100)],
     "C10": [("multi", 20, 200), ("recover", 10, 100), ("rebuild", 10, 100)],
     "C11": [("multi", 30, 300), ("rebuild", 10, 100)],
@@ -105,10 +108,10 @@ STEP_ORACLES.update({"C02": ["C02"], "C20": ["C20"], "C08": ["C08"], "C09": ["C0
 RUN_ORACLES = {"C01": ["c01"], "C05": ["c05_run"], "C07": ["c07_capital"], "C08": ["c08_init"], "C11": ["c11_run"]}
 INIT_OBLIGATIONS = {"C01": ["mkparams"], "C07": ["mkparams"], "C08": ["trackerinit"], "C13": ["trackerinit"], "C18": ["mkparams"]}
 PAIRED = {"C10": ["c10_prefix"], "C11": ["c11_order"], "C13": ["c13_units"], "C18": ["c18_variants", "c18_orders"],
-          "C19": ["c19_shift"], "C17": ["c17_determinism"]}
+          "C19": ["c19_shift", "c19_late"], "C17": ["c17_determinism"]}
 
 # properties whose Lean side includes tables regenerated from the source on every run
-GEN = {"C16": True, "C17": True}
+GEN = {"C16": True, "C17": True, "C02": True, "C14": True}
 
 NONTRIVIAL = {
     "C12": ("weights", "non-uniform weights or an invalid input"),
@@ -152,8 +155,8 @@ CLAIMS = {
             "technique": "Lean 4 theorems on storage / ownership models + `decide` on a regenerated default-argument table + dynamic isolation and snapshot checks"},
     "C02": {"text": "Theorem step_refines_spec: whatever the code-shaped model computes in one step satisfies ArioSpec, the documented ARIO equations written one per field with sums and no masks, caches or branches (overproduction rule, capacity, optimal and actual production with the tightest real input, proportional rationing, inventory resupply with the permitted skip, unmet final demand, reconstruction deliveries, order rule with both share variants); nextStep_econ ties it to the whole step, specDemand_eq to the cached demand. The tie to the code is the correspondence itself: every phase, every output, every cell (delivery matrix via the hook) on every explored step, ties of the threshold tests accepted; plus an independent NumPy transliteration of the documentation as oracle.",
             "note": _NOTE, "technique": "Lean 4 refinement theorem (code-shaped model vs equation-shaped spec) + per-step correspondence of all six phases"},
-    "C19": {"text": "Theorems shift_step (from the third step on, one step of the delayed simulation is the delayed step: the event layer only sees t - occ), shift_step_early + overprod_identity_at_rest (for the first two steps the same holds wherever the overproduction module is the identity, which is the case at rest), shift_run_partial (runs from any state at or after the third step), plus the commuting lemmas of each event phase. Partial: the whole-run statement from t = 0 (chaining these with C01 and C10's prefix theorem) is not proved; it is checked on paired runs of the real code (every event delayed by k = 1..12, first occurrences 1..3).",
-            "note": _NOTE, "technique": "Lean 4 theorems (commutation of the step map with a time shift; run-level from t = 0 partial) + paired runs of the real code"},
+    "C19": {"text": "Theorem shift_invariance: for every valid table and configuration, every event set (all pending at t = 0, occurrences and durations >= 1), every shift k and every horizon n, the run with all events delayed by k, observed from step k on, is the original run delayed by k - exactly, in the rational model, by induction over the run. It chains equilibrium_step_exact (an event-free step at the initial equilibrium returns exactly the same state), C10's invisibility of pending events, shift_step (from the third step on the step map commutes with the shift: the event layer only sees t - occ), shift_step_early + overprod_identity_at_rest (skipping the overproduction module for the first two steps is harmless at rest) and shift_run_partial. 'To within rounding' for the implementation is checked on paired runs of the real code (every event delayed by k = 1..12, first occurrences 1..3).",
+            "note": _NOTE, "technique": "Lean 4 theorems (simulation relation under a time shift, induction over the run) + paired runs of the real code"},
     "C09": {"text": "Theorems damage_before_recovery, damage_after / arb_after (damage in force = rounded recovery function at the elapsed time, for built-ins and user callables alike), finished_when_zero, finished_no_loss, range / antitonicity of the three rational built-ins, linear_zero_at_tau, linear_finished_at_tau, rounded_range / rounded_close, concave_shape (for any monotone g; that k^e is such a g is a fact about real powers outside the rational model). Schedule statements for step length 1. recover_events compared per step on all four curves.",
             "note": _NOTE, "technique": "Lean 4 theorems + per-step correspondence of EventTracker.recover (concave: raw curve values taken from the code, rounding modelled)"},
     "C10": {"text": "Theorems lifecycle_status, status_edges, status_kind_step, status_timeline_step and status_timeline (induction over the run: pending / happening / later stage exactly on schedule), shock_in_force, pending_invisible, prefix_event_free (the run with events equals the run without before the earliest occurrence), for step length 1. The life-cycle phase and ledgers compared per step; prefix checked bitwise on paired runs.",
